@@ -122,20 +122,18 @@ theorem pushNone_bl {b : B} {path dt n md} (hg : Good b dt n md) (ha : At path d
     have hsh := hg.shape
     simp only [Shape] at hsh
     obtain ⟨⟨kdt, vdt, rfl⟩, hint, _, _⟩ := hsh
-    have hk := ha.dictionary_key
     obtain ⟨ip, t, iv, ivals, rfl⟩ := isIntLeaf_form hint
     unfold pushNone
-    refine Bl.ctx_self _ hself (Bl.bind ?_ fun _ _ => Bl.of_ok _)
-    intro msg a e
-    refine ⟨path, List.mem_singleton.2 rfl, .inr ?_⟩
-    simp only [pushNone] at e
-    cases iv with
-    | some bits => simp [setValidity, SaModel.ctx, bind, Except.bind, pure, Except.pure] at e
-    | none =>
-      simp [setValidity, SaModel.ctx, SaModel.fail, bind, Except.bind, B.ann] at e
-      obtain ⟨rfl, rfl⟩ := e
-      simp only [B.path] at hk
-      exact ⟨by simp [List.lookup, hk, B.path], rfl⟩
+    refine Bl.ctx_self _ hself ?_
+    split
+    · exact NoCtx.bl _
+    · rename_i hnl
+      refine Bl.bind ?_ fun _ _ => Bl.of_ok _
+      cases iv with
+      | none => simp [B.isNullable] at hnl
+      | some bits =>
+        intro msg a e
+        simp [pushNone, setValidity, SaModel.ctx, bind, Except.bind, pure, Except.pure] at e
 
 /-! ### list rows -/
 
